@@ -223,6 +223,8 @@ Next == \E p \in Procs :
           \/ \E s \in Sids : DelSn(p, s)
 
 Spec == Init /\ [][Next]_vars
+\* state constraint for behaviours in which the client processes only take (overlapping) snapshots
+OnlySnapshots == \A p \in Procs : op[p].kind \notin {"del", "clean"}
 
 (* ======================== properties ================================== *)
 TypeOK == /\ \A o \in objs : (o[1] = "c" /\ o[2] \in Fams /\ o[3] \in Cids) \/ (o[1] = "s" /\ o[2] \in 1..nsnap)
